@@ -389,6 +389,24 @@ def _match_known(known, pid, task, o):
   return None
 
 
+def lean_lemmas():
+  """Thorough tier: machine-check the cited elementary lemmas (lemmas/Spec.lean) with the installed Lean + Mathlib.
+  Returns a dict for the evidence file; a failing lemma file is an engine error, never a property verdict."""
+  import shutil
+  import subprocess
+  exe = shutil.which("lean")
+  f = os.path.join(VERIF, "lemmas", "Spec.lean")
+  if exe is None:
+    return {"checked": False, "reason": "lean not on PATH"}
+  t0 = time.time()
+  try:
+    r = subprocess.run([exe, f], capture_output=True, text=True, timeout=1800)
+  except subprocess.TimeoutExpired:
+    return {"checked": False, "reason": "lean timed out"}
+  return {"checked": r.returncode == 0, "returncode": r.returncode, "secs": round(time.time() - t0, 1),
+          "output": (r.stdout + r.stderr)[-600:], "file": "lemmas/Spec.lean"}
+
+
 def standard_main(pid, tier, tasks, *, not_covered, structural, trusted_extra=(), oracle=True,
                   extra=None, min_obligations=1, extra_bounded=None):
   """Common check driver: run tasks, native oracle as replay (and as a bounded stand-in in the thorough tier)."""
